@@ -273,3 +273,30 @@ func VerifC03_StreamThorough() {
 	vC03Stream([]int{300, 4096, 4097, 8192, 16384, 65536}, 3, 7, 3, []int{0, 7, 1500})
 }
 func VerifC03_Stream4() { vC03Stream([]int{4097, 16384}, 4, 5, 2, []int{0}) }
+
+// msize lowered BETWEEN two reads (as version negotiation does) while the
+// connection has already delivered bytes of the following frame: frame A, then
+// SetMSize(lower), then frame B of each small kind; the conn hands over the
+// stream whole, or split one byte into B's header, or split inside B's body.
+func VerifC03_LoweredBetween() {
+	lower := []int{24, 32}[ndChoice("lower", 2)]
+	kindA, msgA := vC03SmallMsg(ndChoice("a", 2))
+	encA := refEncode(kindA, Tag(ndU16("tagA")), msgA)
+	kindB, msgB := vC03SmallMsg(ndChoice("b", 3))
+	encB := refEncode(kindB, Tag(ndU16("tagB")), msgB)
+	fa, fb := vFrame(encA), vFrame(encB)
+	conn := &vCaptureConn{in: append(append([]byte(nil), fa...), fb...)}
+	switch ndChoice("split", 4) {
+	case 1:
+		conn.chunk = len(fa) // exactly one frame per read
+	case 2:
+		conn.chunk = len(fa) + 1
+	case 3:
+		conn.chunk = len(fa) + 6
+	}
+	ch := NewChannel(conn, 64)
+	vC03Check(ch, uint32(len(fa)), encA, 64)
+	ch.SetMSize(lower)
+	vC03Check(ch, uint32(len(fb)), encB, lower)
+	vReach("c03.loweredbetween")
+}
